@@ -47,7 +47,16 @@ struct Attempt {
 
 /// decodes `plan` (type per message) from one delivery; stops after the first non-Ok plus `extra`
 /// further reads on the same reader (D: decode-after-failure)
+/// Decided per run from the tape (workers are single threaded): decode the whole plan on ONE long-lived
+/// reader - what a caller does who reads message after message, also after a failed read - instead of
+/// rebuilding the reader from its bits after every message. Only a long-lived reader carries its scope
+/// from one read to the next (a scope left behind by a failed read is invisible otherwise); only the
+/// rebuilt one shows the position and length of the underlying bits exactly. Both halves are needed.
+static KEEP_READER: std::sync::atomic::AtomicBool = std::sync::atomic::AtomicBool::new(false);
+
 fn decode_stream(bytes: &[u8], bit_len: usize, plan: &[usize], extra_after_failure: usize) -> Vec<Attempt> {
+    let keep = KEEP_READER.load(std::sync::atomic::Ordering::Relaxed);
+    let declared = bit_len.min(bytes.len() * 8);
     let z = zoo();
     let mut res = Vec::new();
     let bits = Bits::from((bytes, bit_len.min(bytes.len() * 8)));
@@ -75,13 +84,20 @@ fn decode_stream(bytes: &[u8], bit_len: usize, plan: &[usize], extra_after_failu
             Err(pi) => Out::Panic(pi.sig()),
         };
         // O5: accessors stay callable
-        let remaining_panicked = match guard(|| reader.bits_remaining()) {
+        let remaining = guard(|| reader.bits_remaining());
+        let remaining_panicked = match &remaining {
             Ok(_) => None,
             Err(pi) => Some(pi.sig()),
         };
-        let bits = reader.into_bits();
-        let (pos, len) = (bits.pos(), bits.len());
-        reader = UperReader::from(bits);
+        let (pos, len) = if keep {
+            // observed through the accessor only
+            (declared.saturating_sub(remaining.unwrap_or(0)), declared)
+        } else {
+            let bits = reader.into_bits();
+            let (pos, len) = (bits.pos(), bits.len());
+            reader = UperReader::from(bits);
+            (pos, len)
+        };
         let failed = !matches!(out, Out::Ok(_));
         res.push(Attempt { out, pos, len, largest_alloc: u.largest, peak_alloc: u.peak_above_mark, remaining_panicked });
         if failed {
@@ -301,8 +317,10 @@ pub fn run_uper(ctx: &mut RunCtx<'_>, outcomes_only: bool) -> Option<Violation> 
         let nfaults = if outcomes_only && l0.draw(4) == 0 { 0 } else { 1 + l0.draw(3) as usize };
         let enabled = draw_enabled(&mut l0, WIRE_KINDS);
         let xtype = l0.draw(8) == 0;
+        KEEP_READER.store(l0.draw(2) == 0, std::sync::atomic::Ordering::Relaxed);
         (k, cfg, nfaults, enabled, xtype)
     };
+    ctx.counters.inc(if KEEP_READER.load(std::sync::atomic::Ordering::Relaxed) { "c04.reader.one_long_lived_reader" } else { "c04.reader.rebuilt_after_every_message" });
     let stream = build_stream(ctx, 1, k, cfg, &types, &is_lifted);
     if stream.types.is_empty() && ctx.ch.draw(0, 2) == 0 {
         // nothing encodable drawn: still exercise the readers on random bytes below
